@@ -131,6 +131,22 @@ macro_rules! rt {
                 }
                 ctx.ops(1);
                 ctx.class("typed:instance");
+                // from_value on DOMs of other shapes fails cleanly (the mismatch reporting of the DOM
+                // deserializer is code of its own): no panic, and an error that can be displayed
+                {
+                    let mut rr = Rng::new(s.len() as u64 ^ 0x6d69736d);
+                    for _ in 0..2 {
+                        let other = crate::mon::c04::generic(&mut rr);
+                        if let Ok(v) = sonic_rs::from_str::<Value>(&other) {
+                            match crate::core::guarded(|| sonic_rs::from_value::<$t>(&v).map(|_| ()).map_err(|e| e.to_string())) {
+                                Ok(Err(m)) if m.is_empty() => ctx.fail(&format!("from_value-empty-error:{}", $name), other.clone()),
+                                Ok(_) => {}
+                                Err(_) => ctx.fail(&format!("from_value-panicked:{}", $name), format!("from_value::<{}> panicked on the DOM of {:?}", $name, crate::core::truncate(&other, 120))),
+                            }
+                        }
+                    }
+                    ctx.class("typed:mismatching-doms");
+                }
                 let text = match sonic_rs::to_string(&x) {
                     Ok(t) => t,
                     Err(e) => {
@@ -482,6 +498,45 @@ fn check_built(ctx: &mut Ctx, seed: u64) {
     }
     if !(Value::from(()).is_null() && Value::from(None::<i32>).is_null() && Value::from(()) == Value::default() && parsed_of(&()).map(|w| w == Value::from(())).unwrap_or(false)) {
         ctx.fail("eq-built:unit", "Value::from(()) / None / default / parsed null disagree".into());
+    }
+    // Number: equal numbers hash alike; default containers are the empty ones; slices of arrays
+    {
+        use std::hash::{Hash, Hasher};
+        let h = |n: &sonic_rs::Number| {
+            let mut st = std::collections::hash_map::DefaultHasher::new();
+            n.hash(&mut st);
+            st.finish()
+        };
+        let u = r.next() >> r.below(64);
+        let a = sonic_rs::Number::from(u);
+        let b: sonic_rs::Number = sonic_rs::from_str(&u.to_string()).unwrap();
+        let c = sonic_rs::Number::from((u >> 1) as i64);
+        let d: sonic_rs::Number = sonic_rs::from_str(&(u >> 1).to_string()).unwrap();
+        if !(a == b && h(&a) == h(&b) && c == d && h(&c) == h(&d)) {
+            ctx.fail("number-eq-hash", format!("Number {} built / parsed: eq {} hash {} ; {}: eq {} hash {}", u, a == b, h(&a) == h(&b), u >> 1, c == d, h(&c) == h(&d)));
+        }
+        let mut arr = sonic_rs::Array::default();
+        let obj = sonic_rs::Object::default();
+        if !arr.is_empty() || !obj.is_empty() || Value::from(arr.clone()) != sonic_rs::json!([]) || Value::from(obj) != sonic_rs::json!({}) {
+            ctx.fail("built:defaults", "Array::default / Object::default are not the empty containers".into());
+        }
+        arr.push(u);
+        arr.push("x");
+        {
+            let sl: &mut [Value] = arr.as_mut();
+            sl.swap(0, 1);
+        }
+        let sl: &[Value] = arr.as_ref();
+        let mut n = 0;
+        for x in &mut arr.clone() {
+            if x.is_str() {
+                *x = Value::from(1u8);
+            }
+            n += 1;
+        }
+        if sl.len() != 2 || sl[0] != "x" || sl[1] != u || n != 2 {
+            ctx.fail("built:array-slices", format!("AsRef/AsMut view of [{}, \"x\"] after a swap: {:?}", u, sonic_rs::to_string(&arr)));
+        }
     }
     // bool
     {
